@@ -24,6 +24,10 @@ def specs(tier):
          # the analytic circular family with a sheared safety factor q(r) = a0 + a1 r^2
          gridlab.circular_spec(options={"number_of_processors": 1, "R0": 2.3, "B0": 3.2, "q_coefficients": [1.5, 2.0],
                                         "r_inner": 0.3, "r_outer": 0.9, "nx": 5, "ny": 12}, extract=ex)]
+    # nearly connected double nulls in small flux units (the two separatrix values differ by 5e-4 and 8e-4): which X-point is primary must
+    # not depend on the unit of psi; gridded as connected (nx_inter_sep = 0)
+    S.append(gridlab.tokamak_spec("udn", options={"nx_inter_sep": 0}, fpol="linear", pressure="parab", psi_sign=0.1, extract=ex))
+    S.append(gridlab.tokamak_spec("udn", options={"nx_inter_sep": 0, "psi_divide_twopi": True}, fpol="linear", pressure="parab", extract=ex))
     # a grid on which no two options that could be confused coincide (see gridlab.odd_spec)
     S.append(gridlab.odd_spec("lsn", True, extract=ex))
     if tier == "thorough":
@@ -105,6 +109,13 @@ def oracle_grid(res, g):
     # find_critical accepts an X-point when Br^2 + Bz^2 < xpoint_refine_atol (1e-6), i.e. |grad psi| < R * 1e-3
     if abs(float(v["psi_bdry"]) - pr["psi_at_x"]) > 1e-12 * max(1, abs(pr["psi_at_x"])) or max(abs(x) for x in pr["grad_at_x"]) > 2e-3 * pr["x_point"][0]:
         bad.append(("psi_bdry", "psi_bdry is not psi at a point where grad psi vanishes (|grad| = %.3g)" % max(abs(x) for x in pr["grad_at_x"])))
+    # the primary X-point is the one whose psi is nearest to the axis value, whatever the unit of psi
+    allx = pr.get("psi_at_all_x") or []
+    if len(allx) > 1:
+        prim = min(allx, key=lambda p: abs(p - pr["psi_at_o"]))
+        if abs(float(v["psi_bdry"]) - prim) > 1e-12 * max(1, abs(prim)):
+            bad.append(("psi_bdry-not-primary", "psi_bdry = %r is not psi at the X-point nearest in psi to the axis (psi at the X-points kept: %r, psi_axis = %r)"
+                        % (float(v["psi_bdry"]), allx, pr["psi_at_o"])))
     if abs(float(v["Bt_axis"]) - pr["fpol_axis"] / pr["o_point"][0]) > 1e-12 * abs(float(v["Bt_axis"])):
         bad.append(("Bt_axis", "Bt_axis differs from fpol(psi_axis)/R_axis"))
     for wid, msg in bad:
